@@ -1996,11 +1996,11 @@ void coefficient_reduce(
     // Account for the sparse operation
     switch (type) {
     case REMAINDERING_PSEUDO_DENSE:
-      if (R_deg_prev - R_deg > 1) {
-        // Multiply with the missed power of lc(B)
-        int missed = R_deg < B_deg ?
+      {
+        // Multiply with the missed power of lc(B); a remainder that became 0
+        // has lost all the remaining powers (its degree is not 0 but -inf)
+        int missed = (R_deg < B_deg || coefficient_is_zero(ctx, &R_tmp)) ?
             R_deg_prev - B_deg : R_deg_prev - R_deg - 1;
-        assert(missed >= 0);
         if (missed > 0) {
           coefficient_t pow;
           coefficient_construct(ctx, &pow);
